@@ -186,7 +186,12 @@ func report(w *World, cfg runConfig, units []*UnitResult, obls []*Obligation, bo
 		if !rp.confirmed {
 			suffix = " no-failing-input-found"
 		}
-		fmt.Printf("  FAIL %s: %s by %s in %.2fs at %s: %s\n", ob.Name, ob.Verdict, ob.Solver, ob.Seconds, ob.Pos, ob.Desc)
+		verdict := ob.Verdict
+		if verdict == "sat" && ob.SatMode == "ground" {
+			// a model of the ground-instantiated query is a candidate only (instantiation is incomplete)
+			verdict = "not proved (full query undecided; candidate model of the ground instances)"
+		}
+		fmt.Printf("  FAIL %s: %s by %s in %.2fs at %s: %s\n", ob.Name, verdict, ob.Solver, ob.Seconds, ob.Pos, ob.Desc)
 		fmt.Printf("VIOLATION property=%s replay=%s%s\n", cfg.prop, rp.path, suffix)
 		if exit == 0 {
 			exit = 1
@@ -283,6 +288,7 @@ func report(w *World, cfg runConfig, units []*UnitResult, obls []*Obligation, bo
 		"covers":                   map[string]interface{}{"total": covers, "satisfiable": coversOK, "undecided": coverUndecided},
 		"by_backend":               bk,
 		"solver_seconds":           round3(solverSecs),
+		"solver_budget":            budgetText(cfg.timeoutMs),
 		"samples":                  samples,
 		"known_findings":           knownLines,
 		"bounded":                  boundedEv,
@@ -301,6 +307,24 @@ func report(w *World, cfg runConfig, units []*UnitResult, obls []*Obligation, bo
 		return 2
 	}
 	return exit
+}
+
+// budgetText: what limits a solver run in this check (evidence).
+func budgetText(nominalMs int) string {
+	first := nominalMs
+	if first > 3000 {
+		first = 3000
+	}
+	s := fmt.Sprintf("resource units, not seconds (the verdict is the same on every machine and under every load; query texts are generated deterministically): first stage z3-new rlimit=%d on the full and the ground-instantiated query; then per case of the last join; then a race of",
+		solvers[0].rate*first)
+	for _, sv := range solvers {
+		s += fmt.Sprintf(" %s %d", sv.name, sv.rate*nominalMs)
+	}
+	s += fmt.Sprintf("; undecided obligations (at most 12) once more with four times these; wall-clock safety net %d s per solver run (4x budget: %d s); vacuity probes (covers) keep wall-clock limits of %d/%d ms", wallCapMs(nominalMs)/1000, wallCapMs(4*nominalMs)/1000, first, nominalMs)
+	if p := os.Getenv("GOVC_BUDGET_PCT"); p != "" {
+		s += "; GOVC_BUDGET_PCT=" + p + " (development run: budgets scaled)"
+	}
+	return s
 }
 
 func containsStr(s []string, x string) bool {
@@ -332,6 +356,9 @@ func writeReplay(w *World, cfg runConfig, dir string, ob *Obligation) replayInfo
 	fmt.Fprintf(&sb, "property: %s\nobligation: %s\nkind: %s\nfunction: %s\nat: %s\nwhat: %s\nclause: %s\nverdict: %s (solver %s, %.2fs)\nsmt query: %s\n",
 		cfg.prop, ob.Name, ob.Kind, ob.Func, ob.Pos, ob.Desc, ob.Clause, ob.Verdict, ob.Solver, ob.Seconds, ob.File)
 	confirmed := false
+	if ob.Verdict == "sat" && ob.SatMode == "ground" {
+		sb.WriteString("note: the model is of the ground-instantiated query only; the full query was not decided within its budget. Unless the replay below confirms it on the real code, read this as not proved, not as refuted.\n")
+	}
 	if ob.Verdict == "sat" && replaysDone >= 4 {
 		sb.WriteString("\n--- replay on the real code ---\nno replay: the replay budget of this run (4 obligations) is used up; run the check with --only on this function to replay this one\n")
 	} else if ob.Verdict == "sat" {
